@@ -344,6 +344,10 @@ func execGM(_ *config, op string) string {
 // ---- encoders (the harness-side writer of well-formed streams) ----------------------------
 
 func klv(key string, typ byte, size int, count int, payload []byte) []byte {
+	if count > 65535 || size > 255 {
+		// a generator slip must not turn into a header that silently describes something else
+		panic(fmt.Sprintf("klv %s: size %d x repeat %d does not fit the header", key, size, count))
+	}
 	b := []byte(key)
 	b = append(b, typ, byte(size), byte(count>>8), byte(count))
 	b = append(b, payload...)
@@ -361,6 +365,9 @@ func nest(key string, children ...[]byte) []byte {
 	// size 4, repeat = length/4 (up to 256 KiB) when the length allows, else size 1, repeat = length
 	if len(body)/4 <= 65535 && len(body)%4 == 0 && len(body) > 0 {
 		return append(append([]byte(key), 0, 4, byte(len(body)/4>>8), byte(len(body)/4)), body...)
+	}
+	if len(body) > 65535 {
+		panic(fmt.Sprintf("nest %s: %d bytes have no header (structure size 4 x repeat)", key, len(body)))
 	}
 	return append(append([]byte(key), 0, 1, byte(len(body)>>8), byte(len(body))), body...)
 }
@@ -553,8 +560,9 @@ func gmSensor(r *rng, s *sink) [][]byte {
 		// a long recording interval: the sensor payload passes 64 KiB (size x repeat beyond 16 bits),
 		// also with the largest repeat counts there are
 		nsamp = pick(r, []int{65536/(raw.w*sens.w) + 1 + r.intn(50), 32768, 65535})
-		if nsamp*raw.w*sens.w > 1<<20 {
-			nsamp = (1 << 20) / (raw.w * sens.w)
+		if nsamp*raw.w*sens.w > 240000 {
+			// (the stream and device containers around it must stay below 4 x 65535 bytes to have a header)
+			nsamp = 240000 / (raw.w * sens.w)
 		}
 		s.count("gm.sensor.big")
 	}
@@ -562,9 +570,15 @@ func gmSensor(r *rng, s *sink) [][]byte {
 	if r.chance(1, 40) {
 		nvals += 1 + r.intn(2) // not a multiple of the sample width
 	}
+	flat := nvals != nsamp*sens.w || r.chance(1, 6)
+	if flat && nvals > 65535 {
+		// (the flat spelling — structure size = one value — cannot carry more than 65535 values: a
+		// repeat count has 16 bits; the header must describe the payload that follows it)
+		flat, nvals = false, nsamp*sens.w
+	}
 	payload := gmValueBytes(r, raw.w*nvals)
 	size, count := raw.w*sens.w, nsamp
-	if nvals != nsamp*sens.w || r.chance(1, 6) {
+	if flat {
 		size, count = raw.w, nvals
 	}
 	out = append(out, klv(sens.key, raw.ch, size, count, payload))
